@@ -9,10 +9,13 @@ pub mod c03;
 pub mod c04;
 pub mod c05;
 pub mod c06;
+pub mod c08;
 pub mod c10;
 pub mod tunnelreq;
 pub mod c11;
+pub mod c13;
 pub mod c14;
+pub mod c19;
 pub mod pipes;
 
 pub struct PropDef {
@@ -50,6 +53,13 @@ pub static PROPS: &[PropDef] = &[
         workers: w16,
     },
     PropDef {
+        id: "C08",
+        level: "exploration",
+        run: c08::run,
+        replay: c08::replay,
+        workers: w16,
+    },
+    PropDef {
         id: "C10",
         level: "fault_enumeration",
         run: c10::run,
@@ -61,6 +71,13 @@ pub static PROPS: &[PropDef] = &[
         level: "exploration",
         run: c11::run,
         replay: c11::replay,
+        workers: w16,
+    },
+    PropDef {
+        id: "C13",
+        level: "exploration",
+        run: c13::run,
+        replay: c13::replay,
         workers: w16,
     },
     PropDef {
@@ -82,6 +99,13 @@ pub static PROPS: &[PropDef] = &[
         level: "exploration",
         run: c05::run,
         replay: c05::replay,
+        workers: w16,
+    },
+    PropDef {
+        id: "C19",
+        level: "exploration",
+        run: c19::run,
+        replay: c19::replay,
         workers: w16,
     },
     PropDef {
